@@ -34,6 +34,8 @@ def run(ctx: Context) -> None:
     ctx.rule('R06.6', "the validity filter dominates publication: invalid polygons are found over the full polygon array, replaced by None with an InvalidPolygonWarning, and the array is made read-only; the mask is derived from it", floor=6)
     ctx.rule('R06.7', "extent slots are (min x, min y, max x, max y) of the x / y handles; the generic geometry is the union of polygons[mask] and bounds its .bounds", floor=10)
     ctx.rule('R06.8', "UGRID faces are built from the normalised face-node table: primary dimension first, fill entries masked on the raw values, then start_index subtracted (shared with C10 R10.1)", floor=10)
+    from .common import adopt_foundations as _adopt
+    _adopt(ctx, 'R06.9', ['order'], floor=60)
     ctx.assume("GEOS is_valid detects self-intersection; numpy nanmin/nanmax/nanmean/pad semantics; shapely.polygons closes rings")
     ctx.assume("NOT decided: equality of UGRID node-based bounds with the polygon union when unused nodes exist (data dependent)")
 
